@@ -2550,7 +2550,7 @@ func (a *Agent) TaskDispatch(RequestID uint32, CommandID uint32, Parser *parser.
 					//a.Info.ProcessPPID,
 					a.Info.ProcessPath,
 					a.Info.Elevated,
-					a.Info.BaseAddress,
+					uint64(a.Info.BaseAddress),
 
 					// Operating System Info
 					a.Info.OSVersion,
@@ -2601,7 +2601,7 @@ func (a *Agent) TaskDispatch(RequestID uint32, CommandID uint32, Parser *parser.
 						Protection = "UNKNOWN"
 					}
 
-					Output["Message"] = fmt.Sprintf("Memory Allocated : Pointer:[0x%x] Size:[%d] Protection:[%v]", MemPointer, MemSize, Protection)
+					Output["Message"] = fmt.Sprintf("Memory Allocated : Pointer:[0x%x] Size:[%d] Protection:[%v]", uint64(MemPointer), MemSize, Protection)
 				} else {
 					logger.Debug(fmt.Sprintf("Agent: %x, Command: DEMON_INFO - DEMON_INFO_MEM_ALLOC, Invalid packet", AgentID))
 				}
@@ -2619,7 +2619,7 @@ func (a *Agent) TaskDispatch(RequestID uint32, CommandID uint32, Parser *parser.
 
 					logger.Debug(fmt.Sprintf("Agent: %x, Command: DEMON_INFO - DEMON_INFO_MEM_EXEC, MemFunction: %x, ThreadId: %d", AgentID, MemFunction, ThreadId))
 
-					Output["Message"] = fmt.Sprintf("Memory Executed  : Function:[0x%x] ThreadId:[%d]", MemFunction, ThreadId)
+					Output["Message"] = fmt.Sprintf("Memory Executed  : Function:[0x%x] ThreadId:[%d]", uint64(MemFunction), ThreadId)
 				} else {
 					logger.Debug(fmt.Sprintf("Agent: %x, Command: DEMON_INFO - DEMON_INFO_MEM_EXEC, Invalid packet", AgentID))
 				}
@@ -2651,7 +2651,7 @@ func (a *Agent) TaskDispatch(RequestID uint32, CommandID uint32, Parser *parser.
 						ProcString += "UNKNOWN"
 					}
 
-					Output["Message"] = fmt.Sprintf("Memory Protection: Memory:[0x%x] Size:[%d] Protection[%v]", Memory, MemorySize, ProcString)
+					Output["Message"] = fmt.Sprintf("Memory Protection: Memory:[0x%x] Size:[%d] Protection[%v]", uint64(Memory), MemorySize, ProcString)
 				} else {
 					logger.Debug(fmt.Sprintf("Agent: %x, Command: DEMON_INFO - DEMON_INFO_MEM_PROTECT, Invalid packet", AgentID))
 				}
@@ -3711,7 +3711,7 @@ func (a *Agent) TaskDispatch(RequestID uint32, CommandID uint32, Parser *parser.
 						)
 
 						ModuleName = Parser.ParseString()
-						ModuleBase = "0x" + strconv.FormatInt(Parser.ParsePointer(), 16)
+						ModuleBase = "0x" + strconv.FormatUint(uint64(Parser.ParsePointer()), 16)
 
 						collum = []string{strings.ReplaceAll(ModuleName, " ", ""), ModuleBase} // TODO: fix this to avoid new line in the havoc console
 						tableData = append(tableData, collum)
@@ -3864,7 +3864,7 @@ func (a *Agent) TaskDispatch(RequestID uint32, CommandID uint32, Parser *parser.
 							collum []string
 						)
 
-						BaseAddress = "0x" + strconv.FormatInt(Parser.ParsePointer(), 16)
+						BaseAddress = "0x" + strconv.FormatUint(uint64(Parser.ParsePointer()), 16)
 						RegionSize = utils.ByteCountSI(int64(Parser.ParseInt32()))
 						iProtect = int(Parser.ParseInt32())
 						iState = int(Parser.ParseInt32())
@@ -3993,7 +3993,7 @@ func (a *Agent) TaskDispatch(RequestID uint32, CommandID uint32, Parser *parser.
 				)
 
 				OutputMap["Type"] = "Error"
-				OutputMap["Message"] = fmt.Sprintf("Exception %v [%x] occurred while executing BOF at address %x", win32.StatusToString(int64(Exception)), Exception, Address)
+				OutputMap["Message"] = fmt.Sprintf("Exception %v [%x] occurred while executing BOF at address %x", win32.StatusToString(int64(Exception)), Exception, uint64(Address))
 				a.RequestCompleted(RequestID)
 				teamserver.AgentConsole(a.NameID, HAVOC_CONSOLE_MESSAGE, OutputMap)
 			} else {
